@@ -191,6 +191,30 @@ fn bytes_mode(inputs: &[Vec<u8>], seed: u64, fuzz: usize, si: usize, sn: usize, 
             }
         }
     }
+    // digit runs of every length up to 40 ended by every kind of terminator byte (error texts echo them)
+    for lead in [b':', b'$', b'*'] {
+        for sign in [&b""[..], &b"-"[..], &b"+"[..]] {
+            for nd in 0..=40usize {
+                for term in [0x80u8, 0xff, b'x', b'\n', b' '] {
+                    let mut v = vec![lead];
+                    v.extend_from_slice(sign);
+                    v.extend(std::iter::repeat(b'7').take(nd));
+                    v.push(term);
+                    v.extend_from_slice(b"\r\n+OK\r\n");
+                    extra.push(("digitrun".into(), v, 0));
+                }
+            }
+        }
+    }
+    // the null bulk header and its neighbours, alone and followed by another frame
+    for h in ["$-1\r\n", "$-01\r\n", "$-001\r\n", "$-0\r\n\r\n", "$-0\r\n", "$-00\r\n\r\n", "$-1x\r\n", "$--1\r\n", "$-10\r\n", "$-\r\n\r\n",
+              "$-1\r\r\n", "$+1\r\na\r\n", "$-+1\r\n", "$- 1\r\n", "$-1\n\r\n", "$-2\r\n"] {
+        for tail in ["", ":7\r\n", "+OK\r\n"] {
+            for pre in ["", "*1\r\n", "*2\r\n:1\r\n"] {
+                extra.push(("nullhdr".into(), format!("{pre}{h}{tail}").into_bytes(), 0));
+            }
+        }
+    }
     for k in [1usize, 2, 3, 40] {
         for inner in [&b":1\r\n"[..], &b"$1\r\na\r\n"[..], &b":1\r"[..], &b""[..], &b"?"[..]] {
             extra.push(("nest".into(), nest(k, inner), 0));
